@@ -25,6 +25,7 @@ type Env struct {
 	allocOld string // value of alloc counter in old state (for fresh())
 	fnForLocals *ssa.Function
 	inOld bool
+	oldVars map[string]*Val // values of captured variables in the old state (call-site view of closure contracts)
 }
 
 func (e *Env) errf(format string, a ...interface{}) *Val {
@@ -203,6 +204,21 @@ func isUntypedFloat(t types.Type) bool {
 }
 
 func (e *Env) ident(name string) *Val {
+	if e.inOld && e.oldVars != nil {
+		if v, ok := e.oldVars[name]; ok {
+			return v
+		}
+	}
+	if e.inOld && e.fv.fn != nil && e.oldVars == nil {
+		// a captured variable inside old(): its value in the old state
+		for _, f := range e.fv.fn.FreeVars {
+			if f.Name() == name {
+				if pv, ok := e.fv.params[name]; ok {
+					return e.fv.loadPlace(e.st, e.fv.placeFromPointer(pv))
+				}
+			}
+		}
+	}
 	if v, ok := e.vars[name]; ok {
 		return v
 	}
